@@ -17,6 +17,30 @@ import numpy as np
 import z3
 
 
+class ModelDtype:
+    """dtype reported by a scalar term: behaves as numpy's object dtype, prints as the machine dtype it stands for"""
+    dtype = np.dtype(object)
+    kind = "O"
+
+    def __init__(self, name):
+        self.name = name
+
+    def __str__(self):
+        return self.name
+
+    __repr__ = __str__
+
+    def __eq__(self, other):
+        return other is self or other == np.dtype(object) or (isinstance(other, str) and other == "object")
+
+    def __hash__(self):
+        return hash(np.dtype(object))
+
+
+_MD_REAL = ModelDtype("float64")
+_MD_COMPLEX = ModelDtype("complex128")
+
+
 class Abort(BaseException):
     """Path is infeasible / controller limit hit (BaseException: never swallowed by library)."""
 
@@ -326,7 +350,9 @@ class Z:
 
     @property
     def dtype(self):
-        return np.dtype(object)
+        # numpy accepts it wherever a dtype is expected (np.dtype(x) reads x.dtype -> object), it compares equal to the object dtype,
+        # and its *name* is the modelled machine dtype - the same convention as the patched autoray.get_dtype_name for term blocks
+        return _MD_COMPLEX if self.im is not None else _MD_REAL
 
     def conjugate(self):
         if self.im is None:
